@@ -71,8 +71,22 @@ def make_module(kind, r):
     from pytorch_wavelets.scatternet import ScatLayer, ScatLayerj2
     modes = ['zero', 'symmetric', 'reflect', 'periodization', 'periodic']
     waves = ['db1', 'db2', 'db4', 'sym3', 'bior2.2', 'bior1.3']
-    if kind == 'dwt2': p = dict(J=int(r.integers(1, 4)), wave=str(r.choice(waves)), mode=str(r.choice(modes))); return p, lambda: DWTForward(**p)
-    if kind == 'idwt2': p = dict(wave=str(r.choice(waves)), mode=str(r.choice(modes))); return p, lambda: DWTInverse(**p)
+    def wave2d():
+        # a third of the 2-D modules get one wavelet per axis (the 4-tuple form: column filters first, then row filters)
+        if r.integers(3): return str(r.choice(waves))
+        import pywt
+        wc, wr = pywt.Wavelet(str(r.choice(waves))), pywt.Wavelet(str(r.choice(waves)))
+        return ('4tuple', wc.name, wr.name)
+    def build(cls, p):
+        import pywt
+        w = p['wave']
+        if isinstance(w, tuple):
+            wc, wr = pywt.Wavelet(w[1]), pywt.Wavelet(w[2])
+            fw = (wc.dec_lo, wc.dec_hi, wr.dec_lo, wr.dec_hi) if cls is DWTForward else (wc.rec_lo, wc.rec_hi, wr.rec_lo, wr.rec_hi)
+            return cls(**dict(p, wave=fw))
+        return cls(**p)
+    if kind == 'dwt2': p = dict(J=int(r.integers(1, 4)), wave=wave2d(), mode=str(r.choice(modes))); return p, lambda: build(DWTForward, p)
+    if kind == 'idwt2': p = dict(wave=wave2d(), mode=str(r.choice(modes))); return p, lambda: build(DWTInverse, p)
     if kind == 'dwt1': p = dict(J=int(r.integers(1, 4)), wave=str(r.choice(waves)), mode=str(r.choice(modes))); return p, lambda: DWT1DForward(**p)
     if kind == 'idwt1': p = dict(wave=str(r.choice(waves)), mode=str(r.choice(modes))); return p, lambda: DWT1DInverse(**p)
     if kind == 'swt': p = dict(J=int(r.integers(1, 3)), wave=str(r.choice(waves[:4]))); return p, lambda: SWTForward(**p)
@@ -100,7 +114,11 @@ def make_args(kind, m, r, dt, p=None):
         yl, yh = DWT1DForward(J=2, wave=p['wave'], mode=p['mode']).double()(torch.zeros(1, C, 4 * W, dtype=torch.float64))
         return (rnd(tuple(yl.shape)), [rnd(tuple(h.shape)) for h in yh])
     if kind == 'idwt2':
-        yl, yh = DWTForward(J=2, wave=p['wave'], mode=p['mode']).double()(torch.zeros(1, C, 2 * H, 2 * W, dtype=torch.float64))
+        import pywt
+        w = p['wave']
+        if isinstance(w, tuple):
+            wc, wr = pywt.Wavelet(w[1]), pywt.Wavelet(w[2]); w = (wc.dec_lo, wc.dec_hi, wr.dec_lo, wr.dec_hi)
+        yl, yh = DWTForward(J=2, wave=w, mode=p['mode']).double()(torch.zeros(1, C, 2 * H, 2 * W, dtype=torch.float64))
         return (rnd(tuple(yl.shape)), [rnd(tuple(h.shape)) for h in yh])
     if kind == 'idtcwt':
         yl, yh = DTCWTForward(J=2).double()(torch.zeros(1, C, H, W, dtype=torch.float64))
